@@ -20,6 +20,8 @@ pub struct Case {
     pub pre: String,
     pub post_raw: String,
     pub error_variants: Vec<String>,
+    /// when pre- and post-optimisation outcomes differ: the first optimiser phase that changes the outcome
+    pub optimiser_attribution: Option<String>,
 }
 
 pub struct Unit {
@@ -52,6 +54,8 @@ pub fn value_args(m: &Module, f: usize, args: &[V]) -> Vec<PlutusData> {
 }
 
 pub const FUEL: u64 = 1500;
+/// key of the known finding `split_body_lambda` as seen by C01 (see known_findings.jsonl)
+pub const AFTERWARDS_KEY: &str = "c01:optimiser-afterwards-moves-failing-argument-under-lambda";
 
 /// compile every entry function of module `idx` under setting number `setting` and run it
 pub fn explore(seed: u64, idx: u64, setting: usize, n_args: usize, labels_total: Option<bool>, rep: &mut Report) -> Vec<Unit> {
@@ -110,7 +114,13 @@ pub fn explore(seed: u64, idx: u64, setting: usize, n_args: usize, labels_total:
                     errs.push(v.to_string());
                 }
             }
+            let optimiser_attribution = if post.canonical() != pre.canonical() && post.canonical() != "budget" && pre.canonical() != "budget" {
+                Some(crate::c02::attribute(&c.raw_pre, &data, &pre.canonical()))
+            } else {
+                None
+            };
             cases.push(Case {
+                optimiser_attribution,
                 key: format!("{}:args={}", base, argw.join(",")),
                 args: argw,
                 post: read_back(&post, &f.ret, &p.module),
@@ -139,17 +149,24 @@ pub fn run(ctx: &Ctx) -> Report {
     let n_modules: u64 = comp::arg_u64("--modules").unwrap_or(if ctx.thorough { 5000 } else { 400 });
     let n_args: usize = comp::arg_u64("--inputs").unwrap_or(if ctx.thorough { 24 } else { 10 }) as usize;
     let seed = ctx.seed;
-    let results = comp::par_map(n_modules, 14, |i| {
+    rep.count(&format!("generated-modules-{}", n_modules));
+    // in chunks, so that the requests of a thorough run never sit in memory all at once
+    let chunk: u64 = 2000;
+    let mut start = 0u64;
+    while start < n_modules {
+    let len = chunk.min(n_modules - start);
+    let results = comp::par_map(len, 14, |k| {
+        let i = start + k;
         let mut rep = Report::new("c01", "");
         let units = explore(seed, i, (i % 9) as usize, n_args, None, &mut rep);
         (rep, units)
     });
+    start += len;
     let mut units: Vec<Unit> = vec![];
     for (r, u) in results {
         comp::merge(&mut rep, r);
         units.extend(u);
     }
-    rep.count(&format!("generated-modules-{}", n_modules));
     let requests: Vec<String> = units.iter().map(|u| u.request.clone()).collect();
     let replies = driver::run(&requests);
     for (u, reply) in units.iter().zip(replies.iter()) {
@@ -179,6 +196,19 @@ pub fn run(ctx: &Ctx) -> Report {
                 }
                 continue;
             }
+            if let Some(why) = &c.optimiser_attribution {
+                if why.starts_with("clean_up_no_inlines+afterwards") && model == "abort" && c.pre == "abort" {
+                    rep.count("known:afterwards-moves-argument-under-lambda");
+                    comp::fail_shared(
+                        &mut rep,
+                        AFTERWARDS_KEY,
+                        "the optimiser's last phase moves the evaluation of a failing argument under a lambda: source semantics and unoptimised program abort, the optimised program returns",
+                        replay,
+                        json!({"source_semantics": model, "compiled": c.post, "compiled_pre_optimisation": c.pre, "attribution": why, "case": c.key}),
+                    );
+                    continue;
+                }
+            }
             let blame = if c.pre == *model {
                 "the optimiser (the pre-optimisation program agrees with the source semantics)"
             } else if c.pre == c.post {
@@ -190,9 +220,10 @@ pub fn run(ctx: &Ctx) -> Report {
                 &format!("{}:compiled-differs-from-source", c.key),
                 "compiled code does not compute what the source semantics prescribes",
                 replay,
-                json!({"source_semantics": model, "compiled": c.post, "compiled_pre_optimisation": c.pre, "attributed_to": blame, "machine": c.post_raw, "mode": u.mode}),
+                json!({"source_semantics": model, "compiled": c.post, "compiled_pre_optimisation": c.pre, "attributed_to": blame, "optimiser_phase": c.optimiser_attribution, "machine": c.post_raw, "mode": u.mode}),
             );
         }
+    }
     }
     rep.notes.push(format!("source semantics: driver `mini` (Mini.evalSrc), fuel {}; budget/fuel exhaustion is inconclusive", FUEL));
     rep
